@@ -453,7 +453,7 @@ Section Proofs.
   Lemma free_index_loop_ok : forall sl c q, q < c -> isv (nth q sl E) = false ->
     forall fuel pos, pos < c -> dist c pos q < fuel ->
     exists p, free_index_loop K V fuel sl c pos = Done p /\ p < c /\ isv (nth p sl E) = false.
-  Proof.
+  Proof. clear Hmin.
     intros sl c q Hq Hfree. induction fuel as [|f IH]; intros pos Hpos Hd; [lia|].
     cbn [free_index_loop]. destruct (nth pos sl E) as [| |k v] eqn:Hs.
     - exists pos. rewrite Hs. auto.
@@ -482,7 +482,7 @@ Section Proofs.
   (* ---------------- wrap-guarded probe loops ---------------- *)
 
   Lemma rem_ge1 : forall c start pos, pos < c -> start < c -> 1 <= rem c start pos.
-  Proof. intros. unfold rem. destruct (Nat.ltb_spec pos start); lia. Qed.
+  Proof. clear Hmin. intros. unfold rem. destruct (Nat.ltb_spec pos start); lia. Qed.
 
   Section Guarded.
     Hypothesis Hguard : fix_insert_wrap_guard rv = true.
@@ -494,7 +494,7 @@ Section Proofs.
         exists r, ior_loop K V keqb rv fuel sl c start k pred nv pos free = Done r /\
                   length (ior_slots K V r) = c /\ cv (ior_slots K V r) = cv sl /\
                   (forall p, ior_free K V r = Some p -> p < c /\ isv (nth p (ior_slots K V r) E) = false).
-    Proof.
+    Proof. clear Hmin.
       intros c start k pred nv Hs. induction fuel as [|f IH]; intros sl pos free Hlen Hpos Hrem Hfree.
       { pose proof (rem_ge1 c start pos Hpos Hs). lia. }
       cbn [ior_loop]. rewrite Hguard. cbn [andb].
@@ -559,7 +559,7 @@ Section Proofs.
       length sl = c -> pos < c -> rem c start pos <= fuel -> cv sl = n ->
       exists sl' n' full, remove_key_loop K V keqb fuel sl c start k pos n = Done (sl', n', full) /\
                           length sl' = c /\ cv sl' = n' /\ n' <= n.
-  Proof.
+  Proof. clear Hmin.
     intros c start k Hs. induction fuel as [|f IH]; intros sl pos n Hlen Hpos Hrem Hcv.
     { pose proof (rem_ge1 c start pos Hpos Hs). lia. }
     cbn [remove_key_loop].
@@ -615,7 +615,7 @@ Section Proofs.
     forall fuel sl pos, pos < c -> rem c start pos <= fuel ->
       exists r, remove_value_loop K V keqb veqb fuel sl c start k v pos = Done r /\
                 (forall p b, r = (Some p, b) -> p < c /\ isv (nth p sl E) = true).
-  Proof.
+  Proof. clear Hmin.
     intros c start k v Hs. induction fuel as [|f IH]; intros sl pos Hpos Hrem.
     { pose proof (rem_ge1 c start pos Hpos Hs). lia. }
     cbn [remove_value_loop].
@@ -660,7 +660,7 @@ Section Proofs.
   Lemma value_loop_total : forall c start k, start < c ->
     forall fuel sl pos, pos < c -> rem c start pos <= fuel ->
       exists r, value_loop K V keqb fuel sl c start k pos = Done r.
-  Proof.
+  Proof. clear Hmin.
     intros c start k Hs. induction fuel as [|f IH]; intros sl pos Hpos Hrem.
     { pose proof (rem_ge1 c start pos Hpos Hs). lia. }
     cbn [value_loop].
@@ -674,7 +674,7 @@ Section Proofs.
   Qed.
 
   Theorem value_total : forall (m : omapT) k, exists r, value K V keqb h m k = Done r.
-  Proof.
+  Proof. clear Hmin.
     intros m k. unfold value, value_fuel, probe_fuel.
     destruct (Nat.eqb_spec (cap m) 0) as [Hz|Hnz]; [eauto|].
     pose proof (hpos_lt k (cap m) ltac:(lia)) as Hst.
@@ -685,7 +685,7 @@ Section Proofs.
     forall c start k, start < c ->
     forall fuel sl pos acc, pos < c -> rem c start pos <= fuel ->
       exists r, values_loop K V keqb rv fuel sl c start k pos acc = Done r.
-  Proof.
+  Proof. clear Hmin.
     intros Hfin c start k Hs. induction fuel as [|f IH]; intros sl pos acc Hpos Hrem.
     { pose proof (rem_ge1 c start pos Hpos Hs). lia. }
     cbn [values_loop]. rewrite Hfin. cbn [andb].
@@ -700,7 +700,7 @@ Section Proofs.
 
   Theorem values_total : fix_iter_finished rv = true ->
     forall (m : omapT) k, exists r, values K V keqb h rv m k = Done r.
-  Proof.
+  Proof. clear Hmin.
     intros Hfin m k. unfold values, values_fuel, probe_fuel.
     destruct (Nat.eqb_spec (cap m) 0) as [Hz|Hnz]; [eauto|].
     pose proof (hpos_lt k (cap m) ltac:(lia)) as Hst.
@@ -751,5 +751,84 @@ Section Proofs.
     forall ops : list (op K V),
       exists m', run K V keqb veqb h mincap rv empty_map ops = Done m' /\ Inv m'.
   Proof. intros Hguard Hfin ops. apply run_total_from; auto. apply Inv_empty. Qed.
+
+  (* ---------------- pinned revision: loops that never exit ---------------- *)
+
+  (* a slot at which the pinned insert_or_replace probe continues *)
+  Definition blocks_ior (k : K) (pred : V -> bool) (s : slotT) : bool :=
+    match s with
+    | Empty => false
+    | Deleted => true
+    | Valid k' v' => negb (keqb k' k && pred v')
+    end.
+
+  Lemma nth_forallb : forall (P : slotT -> bool) sl p, forallb P sl = true -> p < length sl -> P (nth p sl E) = true.
+  Proof.
+    intros P sl p Hall Hp. rewrite forallb_forall in Hall. apply Hall. apply nth_In. exact Hp.
+  Qed.
+
+  Lemma ior_pinned_no_exit : fix_insert_wrap_guard rv = false ->
+    forall c start k pred nv sl, length sl = c -> forallb (blocks_ior k pred) sl = true ->
+    forall fuel pos free, pos < c ->
+      ior_loop K V keqb rv fuel sl c start k pred nv pos free = OutOfFuel.
+  Proof. clear Hmin.
+    intros Hflag c start k pred nv sl Hlen Hall. induction fuel as [|f IH]; intros pos free Hpos; [reflexivity|].
+    cbn [ior_loop]. rewrite Hflag. cbn [andb].
+    pose proof (nth_forallb _ sl pos Hall ltac:(lia)) as Hb.
+    destruct (nth pos sl E) as [| |k' v']; cbn [blocks_ior] in Hb; [discriminate| |].
+    - apply IH. apply next_pos_lt. exact Hpos.
+    - apply negb_true_iff in Hb. rewrite Hb. apply IH. apply next_pos_lt. exact Hpos.
+  Qed.
+
+  (* no Empty slot, the key (with a value accepted by the predicate) absent, no growth due:
+     the pinned insert_or_replace exhausts EVERY fuel *)
+  Theorem insert_or_replace_pinned_hangs : fix_insert_wrap_guard rv = false ->
+    forall (m : omapT) k pred nv,
+      0 < cap m -> len m < max_len (cap m) -> forallb (blocks_ior k pred) (slots m) = true ->
+      forall fuel : nat -> nat, insert_or_replace_fuel K V keqb h mincap rv fuel m k pred nv = OutOfFuel.
+  Proof. clear Hmin.
+    intros Hflag m k pred nv Hc Hroom Hall fuel. unfold insert_or_replace_fuel, grow_if_full.
+    destruct (Nat.leb_spec (max_len (cap m)) (len m)) as [Hfull|_]; [lia|].
+    rewrite (ior_pinned_no_exit Hflag (cap m)); auto.
+    apply hpos_lt. exact Hc.
+  Qed.
+
+  Definition matches (k : K) (s : slotT) : bool :=
+    match s with Valid k' _ => keqb k' k | _ => false end.
+
+  Lemma values_pinned_no_exit : fix_iter_finished rv = false ->
+    forall c start k sl, length sl = c ->
+      forallb (fun s => negb (is_empty K V s)) sl = true ->
+      forallb (fun p => negb (start =? next_pos c p) || matches k (nth p sl E)) (seq 0 c) = true ->
+      forall fuel pos acc, pos < c -> values_loop K V keqb rv fuel sl c start k pos acc = OutOfFuel.
+  Proof. clear Hmin.
+    intros Hflag c start k sl Hlen Hne Hlast. induction fuel as [|f IH]; intros pos acc Hpos; [reflexivity|].
+    cbn [values_loop]. rewrite Hflag. cbn [andb].
+    pose proof (nth_forallb _ sl pos Hne ltac:(lia)) as Hb.
+    assert (Hl : negb (start =? next_pos c pos) || matches k (nth pos sl E) = true).
+    { rewrite forallb_forall in Hlast. apply (Hlast pos). apply in_seq. lia. }
+    pose proof (next_pos_lt c pos Hpos) as Hnp.
+    destruct (nth pos sl E) as [| |k' v']; cbn [is_empty negb matches] in *; [discriminate| |].
+    - rewrite orb_false_r in Hl. apply negb_true_iff in Hl. rewrite Hl. apply IH. exact Hnp.
+    - destruct (keqb k' k).
+      + apply IH. exact Hnp.
+      + rewrite orb_false_r in Hl. apply negb_true_iff in Hl. rewrite Hl. apply IH. exact Hnp.
+  Qed.
+
+  (* no Empty slot and a value of the key in the slot just before the key's first slot:
+     the pinned iterator yields values for EVERY fuel *)
+  Theorem values_pinned_hangs : fix_iter_finished rv = false ->
+    forall (m : omapT) k,
+      0 < cap m ->
+      forallb (fun s => negb (is_empty K V s)) (slots m) = true ->
+      forallb (fun p => negb (hpos K h k (cap m) =? next_pos (cap m) p) || matches k (nth p (slots m) E))
+              (seq 0 (cap m)) = true ->
+      forall fuel : nat -> nat, values_fuel K V keqb h rv fuel m k = OutOfFuel.
+  Proof. clear Hmin.
+    intros Hflag m k Hc Hne Hlast fuel. unfold values_fuel.
+    destruct (Nat.eqb_spec (cap m) 0) as [Hz|_]; [lia|].
+    apply (values_pinned_no_exit Hflag (cap m)); auto.
+    apply hpos_lt. exact Hc.
+  Qed.
 
 End Proofs.
